@@ -14,6 +14,8 @@ import CxxModel.Theorems.UsingDecl
 import CxxModel.Theorems.UsingDeclForm
 import CxxModel.Theorems.VarDecl
 import CxxModel.Theorems.VarDecls
+import CxxModel.Theorems.VarInit
+import CxxModel.Theorems.TypedefForm
 import CxxModel.Theorems.AccessForm
 import CxxModel.Theorems.BlockEnd
 import CxxModel.Theorems.Verbose
@@ -554,5 +556,95 @@ theorem toplevel_variables (env : Env) (hp : RulesProgress env.cfg = true) (hnf 
     rw [htyc, hty, this]
     rfl
   rw [hti, hiF, hcar]
+
+/-- **`T ptr-ops x = value ;` through `parse()`'s loop**: as `toplevel_variable_init`, and the one
+    `on_variable` carries as value EXACTLY the tokens written between the `=` and the `;`, for
+    every value of top-level shape (brackets balanced, no `,` / `;` outside brackets) of any length. -/
+theorem toplevel_variable_init (env : Env) (hp : RulesProgress env.cfg = true) (G D : Nat) (w : World)
+    (first : Tok) (pairs : List (Tok × Tok)) (ops : List Tok) (x eq : Tok) (vals : List Tok) (semi : Tok) (d1 : DType) (b1 b0 bmid bx bq bv b' : Buf)
+    (blk : Block) (rest : List Block) (hstack : w.stack = blk :: rest) (hk : blk.hdr.kind ≠ .cls)
+    (hmu : w.muted = false) (hfa : ¬ env.faultAt = some w.delivered)
+    (htok : tokenEofOk env.cfg w.buf = .ok (some first, b1))
+    (hty : first.type = "NAME") (htv : identVal first.value = true)
+    (hall : ∀ p ∈ pairs, p.1.type = "DBL_COLON" ∧ p.2.type = "NAME" ∧ plainVal p.2.value = true)
+    (hy0 : Yields env.cfg b1 (pairs.flatMap (fun p => [p.1, p.2])) b0)
+    (hops : opsHeadOk ops = true) (hopsv : ∀ o ∈ ops, o.value ≠ "auto")
+    (hy : Yields env.cfg b0 ops bmid)
+    (ha : applyPtrOps (.type (.mk (.name first.value none :: pairs.map (fun p => .name p.2.value none)) none false) false false)
+      (ops.map (·.type)) = some d1)
+    (htx : tokenEofOk env.cfg bmid = .ok (some x, bx)) (hx : x.type = "NAME") (hxv : identVal x.value = true)
+    (hteq : tokenEofOk env.cfg bx = .ok (some eq, bq)) (heq : eq.type = "=")
+    (hyv : Yields env.cfg bq vals bv) (htl : TopLevel [",", ";"] (vals.map (·.type)))
+    (hsemi : tokenEofOk env.cfg bv = .ok (some semi, b')) (hs : semi.type = ";")
+    (hF : pairs.length + ops.length + 2 ≤ G + 1) (hFv : vals.length + 1 ≤ G) :
+    ∃ (d : Option String) (bD : Buf) (w7 : World) (ct : CTok) (dox : Option String) (ev : Event),
+      getDoxygen env.cfg env.mcRe w.buf = .ok (d, bD) ∧
+      interp env (mainBody (G + 1) (core (G + 1) (D + 1 + 1)) none) w = (w7, .ok (.inl none)) ∧
+      SigEq b' w7.buf ∧ ct.value = first.value ∧ w7.stack = { blk with loc := .tok ct.sidx } :: rest ∧
+      w7.events = w.events ++ [ev] ∧ ev.kind = .item (.variable (initVariable x d1 vals dox)) ∧
+      ev.stateId = blk.id ∧ ev.parentId = rest.head?.map (·.id) ∧ (∀ dd, d = some dd → dox = some dd) ∧
+      w7.delivered = w.delivered + 1 ∧ w7.anon = w.anon ∧ w7.muted = false ∧ w7.nextId = w.nextId := by
+  obtain ⟨d, bD, wA, ct, hd, hsA, hbA, htyc, hv, hi⟩ := mainBody_item env hp (G + 1) (core (G + 1) (D + 1 + 1)) w first b1 htok
+  obtain ⟨w7, dox, ev, hi7, hsig, hst7, hev7, hk7, hid7, hpar7, hdox7, hdl7, han7, hmu7, hnx7, _⟩ :=
+    parseDeclarations_variable_init env G D ct d pairs ops x eq vals semi d1 { wA with mainTok := some ct } b0 bmid bx bq bv b' blk rest
+      (by show wA.stack = _; rw [hsA.stack]; exact hstack) hk (by show wA.muted = _; rw [hsA.muted]; exact hmu)
+      (by show ¬ env.faultAt = some wA.delivered; rw [hsA.delivered]; exact hfa) (htyc.trans hty) (by rw [hv]; exact htv) hall
+      (by show Yields env.cfg wA.buf _ _; rw [hbA]; exact hy0) hops hopsv hy (by rw [hv]; exact ha) htx hx hxv hteq heq hyv htl hsemi hs hF hFv
+  refine ⟨d, bD, w7, ct, dox, ev, hd, ?_, hsig, hv, hst7, by rw [hev7]; show wA.events ++ _ = _; rw [hsA.events], hk7, hid7, hpar7,
+    hdox7, by rw [hdl7]; show wA.delivered + 1 = _; rw [hsA.delivered], by rw [han7]; exact hsA.anon, hmu7,
+    by rw [hnx7]; exact hsA.nextId⟩
+  rw [hi]
+  have hti : topItem (G + 1) (core (G + 1) (D + 1 + 1)) ct d = parseDeclarations (G + 1) (core (G + 1) (D + 1 + 1)) ct d := by
+    unfold topItem
+    have : Gen.dispatchTable.lookup "NAME" = none := by rw [dispatch_table_eq]; decide
+    rw [htyc, hty, this]
+  have hcar : carry ct d = none := by
+    unfold carry
+    have : Gen.keepDoxygen.contains "NAME" = false := by rw [keep_doxygen_eq]; decide
+    rw [htyc, hty, this]
+    rfl
+  rw [hti, hi7, hcar]
+
+/-- **`typedef T ptr-ops x ;` through `parse()`'s loop**, in any block, with an active visitor that
+    does not raise here: exactly ONE `on_typedef` for the innermost open block with the name `x`,
+    the type the declarator denotes and, in a class body, the access level in force; the
+    declaration is consumed exactly and no doc text is handed on. -/
+theorem toplevel_typedef (env : Env) (hp : RulesProgress env.cfg = true) (F D : Nat) (w : World)
+    (kw first : Tok) (pairs : List (Tok × Tok)) (ops : List Tok) (x semi : Tok) (d1 : DType) (bk b1 b0 bmid bx b' : Buf)
+    (blk : Block) (rest : List Block) (hstack : w.stack = blk :: rest) (hxne : x.value ≠ "")
+    (hmu : w.muted = false) (hfa : ¬ env.faultAt = some w.delivered)
+    (htkw : tokenEofOk env.cfg w.buf = .ok (some kw, bk)) (hkw : kw.type = "typedef")
+    (htok : tokenEofOk env.cfg bk = .ok (some first, b1))
+    (hty : first.type = "NAME") (htv : identVal first.value = true)
+    (hall : ∀ p ∈ pairs, p.1.type = "DBL_COLON" ∧ p.2.type = "NAME" ∧ plainVal p.2.value = true)
+    (hy0 : Yields env.cfg b1 (pairs.flatMap (fun p => [p.1, p.2])) b0)
+    (hops : opsHeadOk ops = true) (hopsv : ∀ o ∈ ops, o.value ≠ "auto")
+    (hy : Yields env.cfg b0 ops bmid)
+    (ha : applyPtrOps (.type (.mk (.name first.value none :: pairs.map (fun p => .name p.2.value none)) none false) false false)
+      (ops.map (·.type)) = some d1)
+    (htx : tokenEofOk env.cfg bmid = .ok (some x, bx)) (hx : x.type = "NAME") (hxv : identVal x.value = true)
+    (hsemi : tokenEofOk env.cfg bx = .ok (some semi, b')) (hs : semi.type = ";")
+    (hF : pairs.length + ops.length + 2 ≤ F) :
+    ∃ (w7 : World) (ct : CTok) (ev : Event),
+      interp env (mainBody F (core F (D + 1 + 1)) none) w = (w7, .ok (.inl none)) ∧
+      SigEq b' w7.buf ∧ ct.value = first.value ∧ w7.stack = { blk with loc := .tok ct.sidx } :: rest ∧
+      w7.events = w.events ++ [ev] ∧ ev.kind = .item (.typedef (plainTypedef x d1 blk)) ∧
+      ev.stateId = blk.id ∧ ev.parentId = rest.head?.map (·.id) ∧
+      w7.delivered = w.delivered + 1 ∧ w7.anon = w.anon ∧ w7.muted = false ∧ w7.nextId = w.nextId := by
+  obtain ⟨d, bD, wA, ck, _, hsA, hbA, _, _, hi⟩ := toplevel_dispatch env hp F (core F (D + 1 + 1)) w kw bk "_parse_typedef" htkw
+    (by rw [hkw, dispatch_table_eq]; decide) (by rw [hkw, keep_doxygen_eq]; decide)
+  obtain ⟨wB, ct, hiB, hbB, hsB, htyc, hv⟩ := step_token env { wA with mainTok := some ck } first b1
+    (by show tokenEofOk env.cfg wA.buf = _; rw [hbA]; exact htok)
+  obtain ⟨w7, ev, hi7, hsig, hst7, hev7, hk7, hid7, hpar7, hdl7, han7, hmu7, hnx7, _⟩ :=
+    parseDeclarations_typedef env F D ct d pairs ops x semi d1 wB b0 bmid bx b' blk rest
+      (by rw [hsB.stack]; show wA.stack = _; rw [hsA.stack]; exact hstack) hxne
+      (by rw [hsB.muted]; show wA.muted = _; rw [hsA.muted]; exact hmu)
+      (by rw [hsB.delivered]; show ¬ env.faultAt = some wA.delivered; rw [hsA.delivered]; exact hfa)
+      (htyc.trans hty) (by rw [hv]; exact htv) hall (by rw [hbB]; exact hy0) hops hopsv hy (by rw [hv]; exact ha) htx hx hxv hsemi hs hF
+  refine ⟨w7, ct, ev, ?_, hsig, hv, hst7, by rw [hev7, hsB.events]; show wA.events ++ _ = _; rw [hsA.events], hk7, hid7, hpar7,
+    by rw [hdl7, hsB.delivered]; show wA.delivered + 1 = _; rw [hsA.delivered],
+    by rw [han7, hsB.anon]; exact hsA.anon, hmu7, by rw [hnx7, hsB.nextId]; exact hsA.nextId⟩
+  rw [hi]
+  simp only [dispatch, parseTypedef, bind, interp_bind, hiB, hi7]
 
 end Cxx
